@@ -127,7 +127,7 @@ int BufferedStream::copy(char* out, int max) {
 	if (max < 0) return max;
 	std::size_t os = 0;
 	for (std::size_t n = static_cast<std::size_t>(max); n && peek();) {
-		std::size_t b = (ALLOC_SIZE - rpos_) - 1;
+		std::size_t b = std::strlen(buf_ + rpos_);
 		std::size_t m = std::min(n, b);
 		out = std::copy(buf_ + rpos_, buf_ + rpos_ + m, out);
 		n -= m;
